@@ -25,7 +25,7 @@ fn configs(prop: &str, thorough: bool) -> Vec<(usize, usize)> {
             .collect();
     }
     let mut v = vec![];
-    if thorough {
+    if thorough || flag("allconfigs") {
         for lb in 0..=6usize {
             for lr in LRS {
                 // a spec needs at least two data bits per metadata bit; two specs of ratio 1 do not
